@@ -1,3 +1,4 @@
+#![recursion_limit = "512"]
 //! airsym: instantiate the real `ProcessorAir` of /repo/air with a symbolic field type and dump the
 //! constraint polynomials it evaluates, as expression DAGs, for the SMT side (lib/airq.py).
 //!
@@ -148,6 +149,24 @@ fn meta(air: &ProcessorAir) -> Value {
             "RANGE_V": trace::range::V_COL_IDX,
             "B_RANGE_AUX": trace::range::B_RANGE_COL_IDX,
             "STACK_AUX": trace::STACK_AUX_TRACE_OFFSET,
+            "BITWISE_SELECTOR": trace::chiplets::BITWISE_SELECTOR_COL_IDX,
+            "BITWISE_A": trace::chiplets::BITWISE_A_COL_IDX,
+            "BITWISE_B": trace::chiplets::BITWISE_B_COL_IDX,
+            "BITWISE_A_BITS": trace::chiplets::BITWISE_A_COL_RANGE.start,
+            "BITWISE_B_BITS": trace::chiplets::BITWISE_B_COL_RANGE.start,
+            "BITWISE_PREV_OUTPUT": trace::chiplets::BITWISE_PREV_OUTPUT_COL_IDX,
+            "BITWISE_OUTPUT": trace::chiplets::BITWISE_OUTPUT_COL_IDX,
+            "MEMORY_SELECTORS": trace::chiplets::MEMORY_SELECTORS_COL_IDX,
+            "MEMORY_CTX": trace::chiplets::MEMORY_CTX_COL_IDX,
+            "MEMORY_ADDR": trace::chiplets::MEMORY_ADDR_COL_IDX,
+            "MEMORY_CLK": trace::chiplets::MEMORY_CLK_COL_IDX,
+            "MEMORY_V": trace::chiplets::MEMORY_V_COL_RANGE.start,
+            "MEMORY_D0": trace::chiplets::MEMORY_D0_COL_IDX,
+            "MEMORY_D1": trace::chiplets::MEMORY_D1_COL_IDX,
+            "MEMORY_D_INV": trace::chiplets::MEMORY_D_INV_COL_IDX,
+            "HASHER_SELECTORS": trace::chiplets::HASHER_SELECTOR_COL_RANGE.start,
+            "HASHER_STATE_COLS": trace::chiplets::HASHER_STATE_COL_RANGE.start,
+            "HASHER_NODE_INDEX": trace::chiplets::HASHER_NODE_INDEX_COL_IDX,
             "CHIPLETS": trace::CHIPLETS_OFFSET,
             "CHIPLETS_WIDTH": trace::CHIPLETS_WIDTH,
         }
